@@ -351,7 +351,10 @@ def probes_ws(text):
 def run_text(text, probes, acc):
     seed = acc.seed
     quick = env.tier() == 'quick'
+    maxlen = max(bounds(env.tier())['len'], bounds(env.tier())['ws_len'])
     for li, h in enumerate(layouts(text, seed)):
+        if quick and len(text) >= maxlen and li % 2:
+            continue          # quick tier: every second layout on the longest texts
         v = build(h)
         t, cells = model.alpha_codes(v)
         acc.state(model.canon_hash(v))
